@@ -22,6 +22,30 @@ def cases(ctx):
     if not ctx.quick:
         for _ in range(20):
             out.append(S.enc_case(rng, n=rng.choice([20000, 50000]), level=rng.choice([8, 12]), nchunks=1))
+    out += budget_cases(rng, 3 if ctx.quick else 12)
+    return out
+
+def budget_cases(rng, count):
+    """more well-separated clusters than the level allows leaves, with n not a multiple of 2^level and large enough
+    (>= 2^14) for the level to be effective: 2^level + extra clusters of floor(n / 2^level) consecutive values each,
+    2^40 apart (nothing the optimiser would merge). The '<= 2^level leaves' conjunct of C10 is decided on these."""
+    out = []
+    for i in range(count):
+        dt = rng.choice(["i64", "u64", "micros", "i128"])
+        level = [1, 2, 8, 3, 5, 4, 6, 7][i % 8]
+        k = 1 << level
+        n = (1 << 14) + rng.range(1, k)                 # 1 <= n mod 2^level < 2^level
+        w = n // k
+        xs, v = [], 0
+        while len(xs) < n:
+            for j in range(min(w, n - len(xs))):
+                xs.append(G.from_signed_val(dt, v + j))
+            v += 1 << 40
+        if rng.chance(1, 2):
+            for a in range(len(xs) - 1, 0, -1):
+                b = rng.below(a + 1)
+                xs[a], xs[b] = xs[b], xs[a]
+        out.append({"dt": dt, "level": level, "order": 0, "gcds": rng.below(2), "chunks": [xs], "kinds": ["budget"], "drain": 0})
     return out
 
 def run(ctx):
